@@ -101,7 +101,15 @@ ClassOf(a, K, vars) ==
    fragment re-entered through the standard's setters, remove-port / remove-user-info / remove-fragment (setters), and
    sort-query on the list machine with the library's serializer.  CanonRun predicts its output for ANY input. *)
 Profile(rep, rport, ruser, rfrag, sort, dscheme) ==
-  [repeated |-> rep, removePort |-> rport, removeUserInfo |-> ruser, removeFragment |-> rfrag, sort |-> sort, defaultScheme |-> dscheme]
+  [repeated |-> rep, removePort |-> rport, removeUserInfo |-> ruser, removeFragment |-> rfrag, sort |-> sort, defaultScheme |-> dscheme,
+   opts |-> DefaultOpts, skipEq |-> FALSE]
+(* the two predefined experimental profiles, as far as they are modelled: parser options with a modelled effect (collapse,
+   single-percent, replaced sets, special schemes, host function) + the pipeline.  NOT modelled: lax host parsing, accept-invalid-
+   code-points, the Latin-1 override - ExactDomain says for which inputs these cannot matter. *)
+LaxQuerySet == SetDel(SetQuery, {34, 37, 47, 59, 63, 123})
+GsbOpts == [DefaultOpts EXCEPT !.sQuery = LaxQuerySet, !.collapse = TRUE, !.singlePct = TRUE, !.preHost = "gsb"]
+SemanticOpts == [DefaultOpts EXCEPT !.special = GopherSpecial, !.sPath = SetDel(SetPath, {46, 60, 62}), !.sQuery = LaxQuerySet, !.collapse = TRUE,
+                                    !.singlePct = TRUE, !.preHost = "semantic"]
 ProfileOf(name) ==
   CASE name = "WhatWg" -> Profile(FALSE, FALSE, FALSE, FALSE, "none", <<>>)
     [] name = "WhatWgSortQuery" -> Profile(FALSE, FALSE, FALSE, FALSE, "keys", <<>>)
@@ -115,9 +123,12 @@ ProfileOf(name) ==
     [] name = "canon:remove_userinfo+remove_port+remove_fragment+sort_keys+default_scheme+repeated_decode" -> Profile(TRUE, TRUE, TRUE, TRUE, "keys", <<HTTP>>)
     [] name = "canon:remove_fragment+sort_param+repeated_decode" -> Profile(TRUE, FALSE, FALSE, TRUE, "param", <<>>)
     [] name = "canon:remove_port+sort_keys" -> Profile(FALSE, TRUE, FALSE, FALSE, "keys", <<>>)
+    [] name = "GoogleSafeBrowsing" -> [Profile(TRUE, TRUE, FALSE, TRUE, "none", <<HTTP>>) EXCEPT !.opts = GsbOpts, !.skipEq = TRUE]
+    [] name = "Semantic" -> [Profile(TRUE, FALSE, TRUE, TRUE, "keys", <<HTTP>>) EXCEPT !.opts = SemanticOpts]
 ModelledProfiles == {"WhatWg", "WhatWgSortQuery", "canon:remove_userinfo", "canon:remove_port", "canon:remove_fragment", "canon:sort_keys", "canon:sort_param",
                      "canon:default_scheme", "canon:repeated_decode", "canon:remove_userinfo+remove_port+remove_fragment+sort_keys+default_scheme+repeated_decode",
-                     "canon:remove_fragment+sort_param+repeated_decode", "canon:remove_port+sort_keys"}
+                     "canon:remove_fragment+sort_param+repeated_decode", "canon:remove_port+sort_keys", "GoogleSafeBrowsing", "Semantic"}
+ExperimentalProfiles == {"GoogleSafeBrowsing", "Semantic"}
 
 (* bytes of a Go string given as text (raw pseudo code points are single bytes) *)
 BytesOf(t) == Flat([i \in 1..Len(t) |-> IF IsRaw(t[i]) THEN <<t[i] - RawBase>> ELSE Utf8(t[i])])
@@ -139,42 +150,49 @@ PairBytes(item) == LET k == IndexOf(item, 61) IN
                    ELSE <<PctDecode(PlusToSpace(SubSeq(item, 1, k - 1))), PctDecode(PlusToSpace(Drop(item, k)))>>
 ParseQBytes(q) == LET items == SelectSeq(Split(q, 38), NonEmpty) IN [i \in 1..Len(items) |-> PairBytes(items[i])]
 (* the library's serializer on a byte string: it ranges over RUNES - an invalid byte becomes U+FFFD, a space '+' *)
-RECURSIVE ImplEscBytes(_, _)
-ImplEscBytes(b, i) ==
+RECURSIVE ImplEscBytes(_, _, _)
+ImplEscBytes(S, b, i) ==
   IF i > Len(b) THEN <<>>
   ELSE LET r == Utf8At(b, i) IN
-       (IF r[1] = -1 THEN PctCp(65533) ELSE IF r[1] = 32 THEN <<43>> ELSE EncCp(SetQuery, r[1])) \o ImplEscBytes(b, i + r[2])
-SerQBytes(l) == IF l = <<>> THEN <<>>
-                ELSE JoinWith([i \in 1..Len(l) |-> ImplEscBytes(l[i][1], 1) \o <<61>> \o ImplEscBytes(l[i][2], 1)], 38)
-WriteBack(u, l) == LET q == SerQBytes(l) IN [u EXCEPT !.query = IF q # <<>> THEN Some(q) ELSE IF u.query # None THEN Some(<<>>) ELSE None]
+       (IF r[1] = -1 THEN PctCp(65533) ELSE IF r[1] = 32 THEN <<43>> ELSE EncCp(S, r[1])) \o ImplEscBytes(S, b, i + r[2])
+SerQBytes(pr, l) == IF l = <<>> THEN <<>>
+                    ELSE JoinWith([i \in 1..Len(l) |-> ImplEscBytes(pr.opts.sQuery, l[i][1], 1)
+                                                       \o (IF pr.skipEq /\ l[i][2] = <<>> THEN <<>> ELSE <<61>>) \o ImplEscBytes(pr.opts.sQuery, l[i][2], 1)], 38)
+WriteBack(pr, u, l) == LET q == SerQBytes(pr, l) IN [u EXCEPT !.query = IF q # <<>> THEN Some(q) ELSE IF u.query # None THEN Some(<<>>) ELSE None]
+(* inputs for which the unmodelled options of the experimental profiles cannot matter: pure ASCII, and no byte >= 0x80 appears at any
+   depth of percent-decoding (no invalid UTF-8, nothing for the Latin-1 override to re-inflate); a host the strict parser rejects is
+   excluded by CanonRun itself (failure in a host state -> no prediction) *)
+ExactDomain(in) == (\A i \in 1..Len(in) : in[i] < 128) /\ \A i \in 1..Len(RepeatedDecode(in)) : RepeatedDecode(in)[i] < 128
 ListNow(u, lst) == IF lst # None THEN Get(lst) ELSE IF u.query = None THEN <<>> ELSE ParseQBytes(Get(u.query))
 DecodeEncodeB(b, S) == EncodeBytes(S, RepeatedDecode(b))
 
 (* the result: [u, asked] ; asked = TRUE when a non-trivial domain would need the IDNA oracle (no prediction) *)
 CanonSteps(pr, u0) ==
   LET doHost == pr.repeated /\ Hostname(u0) # <<>>
-      hostStep == IF doHost THEN ParseOvO(DecodeEncode(Hostname(u0), SetHostPE), u0, "hostname", None, DefaultOpts) ELSE [u |-> u0, asked |-> None]
+      hostStep == IF doHost THEN ParseOvO(DecodeEncode(Hostname(u0), SetHostPE), u0, "hostname", None, pr.opts) ELSE [u |-> u0, asked |-> None]
       u1 == hostStep.u
-      u2 == IF pr.repeated /\ SerPath(u1) # <<>> THEN SetPathnameO(DefaultOpts, u1, DecodeEncode(SerPath(u1), LaxPathSet)) ELSE u1
+      u2 == IF pr.repeated /\ SerPath(u1) # <<>> THEN SetPathnameO(pr.opts, u1, DecodeEncode(SerPath(u1), LaxPathSet)) ELSE u1
       doIter == pr.repeated /\ Search(u2) # <<>>
       l3 == IF doIter THEN Some([i \in 1..Len(ListNow(u2, None)) |->
                                  <<DecodeEncodeB(ListNow(u2, None)[i][1], RepQuerySet), DecodeEncodeB(ListNow(u2, None)[i][2], RepQuerySet)>>])
             ELSE None
-      u3 == IF doIter THEN WriteBack(u2, Get(l3)) ELSE u2
+      u3 == IF doIter THEN WriteBack(pr, u2, Get(l3)) ELSE u2
       u4 == IF ~pr.repeated THEN u3
-            ELSE IF Hash(u3) # <<>> THEN SetHashO(DefaultOpts, u3, DecodeEncode(Fragment(u3), SetHostPE)) ELSE SetHashO(DefaultOpts, u3, <<>>)
-      u5 == IF pr.removePort THEN SetPortO(DefaultOpts, u4, <<>>) ELSE u4
+            ELSE IF Hash(u3) # <<>> THEN SetHashO(pr.opts, u3, DecodeEncode(Fragment(u3), SetHostPE)) ELSE SetHashO(pr.opts, u3, <<>>)
+      u5 == IF pr.removePort THEN SetPortO(pr.opts, u4, <<>>) ELSE u4
       u6 == IF pr.removeUserInfo THEN SetPassword(SetUsername(u5, <<>>), <<>>) ELSE u5
-      u7 == IF pr.removeFragment THEN SetHashO(DefaultOpts, u6, <<>>) ELSE u6
-      u8 == IF pr.sort = "keys" THEN WriteBack(u7, SortByName(ListNow(u7, l3)))
-            ELSE IF pr.sort = "param" THEN WriteBack(u7, SortByBoth(ListNow(u7, l3))) ELSE u7
+      u7 == IF pr.removeFragment THEN SetHashO(pr.opts, u6, <<>>) ELSE u6
+      u8 == IF pr.sort = "keys" THEN WriteBack(pr, u7, SortByName(ListNow(u7, l3)))
+            ELSE IF pr.sort = "param" THEN WriteBack(pr, u7, SortByBoth(ListNow(u7, l3))) ELSE u7
   IN [u |-> u8, asked |-> hostStep.asked # None]
+HostStates == {"host", "hostname", "fileHost"}
 CanonRun(name, in) ==
   LET pr == ProfileOf(name)
-      r0 == Parse(in, None, None)
+      r0 == ParseO(in, None, None, pr.opts)
       r == IF r0.res = "fail" /\ r0.failAt = "noScheme" /\ pr.defaultScheme # <<>>
-           THEN Parse(pr.defaultScheme[1] \o <<58, 47, 47>> \o in, None, None) ELSE r0
-  IN IF r.asked # None THEN [fail |-> FALSE, asked |-> TRUE, u |-> EmptyUrl]
-     ELSE IF r.res = "fail" THEN [fail |-> TRUE, asked |-> FALSE, u |-> EmptyUrl]
-     ELSE LET c == CanonSteps(pr, r.u) IN [fail |-> FALSE, asked |-> c.asked, u |-> c.u]
+           THEN ParseO(pr.defaultScheme[1] \o <<58, 47, 47>> \o in, None, None, pr.opts) ELSE r0
+      unmodelled == name \in ExperimentalProfiles /\ (~ExactDomain(in) \/ (r.res = "fail" /\ r.failAt \in HostStates))
+  IN IF r.asked # None \/ unmodelled THEN [fail |-> FALSE, asked |-> TRUE, u |-> EmptyUrl, opts |-> pr.opts]
+     ELSE IF r.res = "fail" THEN [fail |-> TRUE, asked |-> FALSE, u |-> EmptyUrl, opts |-> pr.opts]
+     ELSE LET c == CanonSteps(pr, r.u) IN [fail |-> FALSE, asked |-> c.asked, u |-> c.u, opts |-> pr.opts]
 ====
